@@ -337,7 +337,12 @@ def main_check(prop, tier, seed, module, replay=None):
         axioms, bad_axioms = ({}, [])
         if build_ok:
             axioms, bad_axioms = audit_axioms(prop)
-        src_hits = audit_sources(["Pyrealb.Props." + prop, "Pyrealb.Audit." + prop] + meta.get("extra_modules", []))
+            for extra in meta.get("extra_audits", []):   # further Audit/<name>.lean modules of this property
+                a2, b2 = audit_axioms(extra)
+                axioms.update(a2)
+                bad_axioms += b2
+        src_hits = audit_sources(["Pyrealb.Props." + prop, "Pyrealb.Audit." + prop] + meta.get("extra_modules", [])
+                                 + ["Pyrealb.Audit." + x for x in meta.get("extra_audits", [])])
         ctx.notes["lean_modules_audited"] = len(import_closure(["Pyrealb.Props." + prop, "Pyrealb.Audit." + prop] + meta.get("extra_modules", [])))
         ctx.theorems = axioms
         for b in bad_axioms:
